@@ -184,7 +184,7 @@ def check_v1_fields(ctx):
         title, artist, album, comment = text(n_t), text(n_a), text(n_l), text(n_c)
         if rng.random() < 0.15:
             title = "日本" + title          # not Latin-1: replaced character by character
-        track = rng.choice([None, 1, 7, 99, 255])
+        track = rng.choice([None, 1, 7, 99, 255, 256, 300, 65536, "300/400", "-3", "0"])
         year = rng.choice(["2001", "1999-12-31", "0987", "2020-05-06 12:00"])
         tag = ID3()
         if n_t:
@@ -211,7 +211,7 @@ def check_v1_fields(ctx):
         ctx.case(key=("v1", n_t, n_a, n_l, n_c, track, year, ver, title[:4]), nontrivial=True, modelled=False, sample=None)
         ctx.hist["v1-fields"] += 1
         if k != "ok":
-            ctx.violation("v1:save-fails", repr(r)[:100], case); continue
+            ctx.violation("v1:save-fails:%s" % (type(r).__name__ if k == "exc" else k), repr(r)[:100], case); continue
         b = id3spec.decode_id3v1(f.getvalue()[-128:])
         if b is None:
             ctx.violation("v1:missing", "v1=2 but no ID3v1 block written", case); continue
@@ -224,8 +224,12 @@ def check_v1_fields(ctx):
             c28, c30 = lat(comment, 28), lat(comment, 30)
             if b["comment"] not in (c28, c30):
                 ctx.violation("v1:comment", "ID3v1 comment is %r, expected %r" % (b["comment"], c28), case)
-        if track is not None and b["track"] != track:
+        # a track number that does not fit the one byte of ID3v1.1 cannot be represented: it is left out (0)
+        fits = isinstance(track, int) and 1 <= track <= 255
+        if fits and b["track"] != track:
             ctx.violation("v1:track", "ID3v1 track is %r, expected %r" % (b["track"], track), case)
+        if track is not None and not fits and b["track"] not in (None, 0):
+            ctx.violation("v1:track", "ID3v1 track is %r for the unrepresentable TRCK %r" % (b["track"], track), case)
         if b["genre"] != 17:
             ctx.violation("v1:genre", "ID3v1 genre is %r, expected 17 (Rock)" % (b["genre"],), case)
 
